@@ -206,7 +206,10 @@ def ev(f, e, env, locals_=None, depth=0):
         db = env.get("__db__") or facts.db_of(f)
         h = db.fn(e["callee"]) if db is not None else None
         if h is not None and h.get("body") and not h.get("rec") and len(h.get("params", ())) == len(c) - 1 and \
-                (facts.tyi(h, h.get("ret")) or {}).get("k") in ("int", "bool", "enum"):
+                ((facts.tyi(h, h.get("ret")) or {}).get("k") in ("int", "bool", "enum") or
+                 ((facts.tyi(h, h.get("ret")) or {}).get("k") == "rec" and env.get("__termfn2__") is not None)):
+            # (a record returned by value is whatever __termfn2__ makes of the returned expression; "__fn__" tells it which
+            # function's nodes it is looking at)
             henv = dict((k_, v_) for k_, v_ in env.items() if isinstance(k_, str) and k_.startswith("__") and k_ not in ("__is_input__", "__input__", "__termfn__"))
             for p_, a_ in zip(h["params"], c[1:]):
                 pt = facts.tyi(h, p_.get("t")) or {}
@@ -221,6 +224,7 @@ def ev(f, e, env, locals_=None, depth=0):
                         continue
                     raise Unknown("call %s with a non-integer argument" % e.get("cname"))
                 henv[p_["var"]] = wrap(ev(f, a_, env, locals_, depth + 1), pt)
+            henv["__fn__"] = h
             r = run_body(h, h["body"], henv)
             if r is None:
                 raise Unknown("call %s returned no value" % e.get("cname"))
